@@ -140,6 +140,8 @@ theorem applyRes_noSIC (cfg : Cfg) (pol : Policy) (step : Nat) (tickEv : Ev) (dc
   | failed exc failedAt =>
     simp only [applyRes]
     split
+    · exact h
+    split
     · simp [List.any_append, h, Cmd.isSIC]
     all_goals
       split
